@@ -1402,8 +1402,88 @@ def _iterate_until(tree):
     return count[0]
 
 
+def _flatten_private_bases(tree):
+    """A class deriving from a *private* class of the same module (`class _Shared: ..; class A(_Shared): ..` — shared
+    code pulled into a base class or mixin) is given copies of the methods, properties and class constants it inherits
+    and does not override, as attribute look-up would find them; in the copies `cls.X` / `self.X` / `type(self).X` is
+    replaced by the constant the class binds X to when X is a class-level constant that is never assigned through an
+    instance or the class.  The base class and the inheritance stay as they are.  Methods using `super()` are not
+    copied."""
+    classes = {st.name: st for st in tree.body if isinstance(st, ast.ClassDef)}
+    assigned_attrs = {n.attr for n in ast.walk(tree) if isinstance(n, ast.Attribute) and isinstance(n.ctx, (ast.Store, ast.Del))}
+    count = 0
+
+    def own_names(c):
+        out = set()
+        for st in c.body:
+            if isinstance(st, (ast.FunctionDef, ast.AsyncFunctionDef)):
+                out.add(st.name)
+            elif isinstance(st, ast.Assign):
+                out |= {t.id for t in st.targets if isinstance(t, ast.Name)}
+            elif isinstance(st, ast.AnnAssign) and isinstance(st.target, ast.Name):
+                out.add(st.target.id)
+        return out
+
+    def constants(c):
+        out = {}
+        for st in c.body:
+            ok_val = lambda v: v is not None and _simple(v) and not any(isinstance(n, (ast.Lambda, ast.Call)) for n in ast.walk(v))
+            if isinstance(st, ast.Assign) and len(st.targets) == 1 and isinstance(st.targets[0], ast.Name) and ok_val(st.value):
+                out[st.targets[0].id] = st.value
+            elif isinstance(st, ast.AnnAssign) and isinstance(st.target, ast.Name) and ok_val(st.value):
+                out[st.target.id] = st.value
+        return out
+
+    done = set()
+    for _round in range(4):
+        changed = False
+        for c in list(classes.values()):
+            for b in c.bases:
+                if not (isinstance(b, ast.Name) and b.id.startswith("_") and not b.id.startswith("__") and b.id in classes and b.id != c.name) or (c.name, b.id) in done:
+                    continue
+                base = classes[b.id]
+                # a private base that itself derives from a private base is flattened first
+                if any(isinstance(bb, ast.Name) and bb.id.startswith("_") and bb.id in classes and (base.name, bb.id) not in done for bb in base.bases):
+                    continue
+                done.add((c.name, b.id))
+                have = own_names(c)
+                added = []
+                for st in base.body:
+                    if isinstance(st, (ast.FunctionDef, ast.AsyncFunctionDef)):
+                        if st.name in have or any(isinstance(n, ast.Call) and isinstance(n.func, ast.Name) and n.func.id == "super" for n in ast.walk(st)):
+                            continue
+                        added.append(copy.deepcopy(st))
+                    elif isinstance(st, ast.Assign) and all(isinstance(t, ast.Name) and t.id not in have for t in st.targets):
+                        added.append(copy.deepcopy(st))
+                    elif isinstance(st, ast.AnnAssign) and isinstance(st.target, ast.Name) and st.target.id not in have and st.value is not None:
+                        added.append(copy.deepcopy(st))
+                if not added:
+                    continue
+                c.body = c.body + added
+                consts = {k: v for k, v in constants(c).items() if k not in assigned_attrs}
+
+                class _K(ast.NodeTransformer):
+                    def visit_Attribute(self_, n):
+                        self_.generic_visit(n)
+                        if isinstance(n.ctx, ast.Load) and n.attr in consts:
+                            v = n.value
+                            if (isinstance(v, ast.Name) and v.id in ("self", "cls", c.name)) or (isinstance(v, ast.Call) and ast.unparse(v) == "type(self)"):
+                                return ast.copy_location(copy.deepcopy(consts[n.attr]), n)
+                        return n
+
+                for st in added:
+                    if isinstance(st, (ast.FunctionDef, ast.AsyncFunctionDef)):
+                        _K().visit(st)
+                count += 1
+                changed = True
+        if not changed:
+            break
+    return count
+
+
 def normalise(tree):
     """unroll table-driven loops and fold constant getattr / setattr; returns (tree, number of loops unrolled)"""
+    _flatten_private_bases(tree)
     _collect_records(tree)
     _iterate_until(tree)
     _inline_pure_helpers(tree)
